@@ -1,3 +1,4 @@
+import numpy as np
 import pandas as pd
 import xarray as xr
 from typing_extensions import Self
@@ -48,6 +49,7 @@ class Stacker(Transformer):
         self.coords_in = {}
         self.coords_out = {}
         self.data_type = None
+        self.var_dims = {}
 
     def get_serialization_attrs(self) -> dict:
         return dict(
@@ -57,6 +59,7 @@ class Stacker(Transformer):
             coords_in=self.coords_in,
             coords_out=self.coords_out,
             data_type=self.data_type,
+            var_dims=self.var_dims,
         )
 
     def _validate_data_type(self, X: Data):
@@ -255,22 +258,68 @@ class Stacker(Transformer):
         X = self._reorder_dims(X)
         return X
 
+    def _unstack_feature_to_dataset(self, X: DataArray) -> DataSet:
+        """Split the stacked feature dimension into the original variables.
+
+        Each variable is unstacked on its own, using only the feature dimensions it
+        actually has. Unlike ``DataArray.to_unstacked_dataset`` no other dimension is
+        squeezed, so dimensions of length one (e.g. a single mode) are kept, and
+        variables with different sets of dimensions are not broadcast against each other.
+        """
+        feature_name = self.feature_name
+        index = X.indexes[feature_name]
+        variables = index.get_level_values("variable")
+        # Remove all coordinates associated to the stacked feature dimension
+        feature_coords = [c for c in X.coords if feature_name in X.coords[c].dims]
+
+        data_vars = {}
+        for var in pd.unique(variables):
+            is_var = np.asarray(variables == var)
+            da = X.isel({feature_name: is_var}).drop_vars(feature_coords)
+            var_index = index[is_var].droplevel("variable")
+            # Only use the feature dimensions this variable actually has
+            if var in self.var_dims:
+                levels = [n for n in var_index.names if n in self.var_dims[var]]
+            else:
+                levels = [
+                    name
+                    for name in var_index.names
+                    if not var_index.get_level_values(name).isna().all()
+                ]
+            if len(levels) == 1:
+                da = da.rename({feature_name: levels[0]})
+                da = da.assign_coords(
+                    {levels[0]: np.asarray(var_index.get_level_values(levels[0]))}
+                )
+            else:
+                var_index = pd.MultiIndex.from_arrays(
+                    [var_index.get_level_values(name) for name in levels], names=levels
+                )
+                da = da.assign_coords(
+                    xr.Coordinates.from_pandas_multiindex(var_index, feature_name)
+                ).unstack(feature_name)
+            data_vars[var] = da
+        return xr.Dataset(data_vars, attrs=X.attrs)
+
     def _unstack_to_dataset_data(self, X: DataArray) -> DataSet:
         """Unstack `sample` and `feature` dimension of an DataArray to its original dimensions."""
         sample_name = self.sample_name
-        feature_name = self.feature_name
         has_only_one_sample_dim = len(self.dims_mapping[sample_name]) == 1
 
-        if has_only_one_sample_dim:
-            X = X.rename({sample_name: self.dims_mapping[sample_name][0]})
+        # pass if the sample dimension does not exist in data (already unstacked)
+        if sample_name in X.dims:
+            if has_only_one_sample_dim:
+                if self.dims_mapping[sample_name][0] != sample_name:
+                    X = X.rename({sample_name: self.dims_mapping[sample_name][0]})
+            else:
+                X = X.unstack(sample_name)
 
-        ds: DataSet = X.to_unstacked_dataset(feature_name, "variable").unstack()
+        ds: DataSet = self._unstack_feature_to_dataset(X)
         ds = self._reorder_dims(ds)
         return ds
 
     def _unstack_to_dataset_components(self, data: DataArray) -> DataSet:
-        feature_name = self.feature_name
-        ds: DataSet = data.to_unstacked_dataset(feature_name, "variable").unstack()
+        ds: DataSet = self._unstack_feature_to_dataset(data)
         ds = self._reorder_dims(ds)
         return ds
 
@@ -303,6 +352,13 @@ class Stacker(Transformer):
                 self.feature_name: feature_dims,
             }
         )
+
+        # Remember the dimensions of each variable of a Dataset
+        if isinstance(X, xr.Dataset):
+            self.var_dims = {
+                str(var): [str(dim) for dim in da.dims]
+                for var, da in X.data_vars.items()
+            }
 
         # Set dimensions and coordinates
         self.dims_in = X.dims
